@@ -600,6 +600,28 @@ class Interp:
         n = ty.get("n", 1)
         eb = ty.get("eb", bits)
         ops = ins["ops"]
+        cal = ins.get("callee") or ""
+        if cal.startswith("llvm.experimental.constrained."):
+            # strict floating point (-frounding-math): the operation of the same name evaluated under the
+            # dynamic rounding mode, which is how every float step of a closed form is evaluated anyway
+            # (lib/fpeval.py, four modes).  metadata: rounding mode / exception behaviour / fcmp predicate
+            opn = cal.split(".")[3]
+            mds = [o.get("s") for o in ops if o["k"] == "md"]
+            real = [o for o in ops if o["k"] != "md"]
+            rounding = [m for m in mds if m and m.startswith("round.")]
+            if rounding and rounding[0] != "round.dynamic":
+                S.unknown.append(cal + ":" + rounding[0])
+                return T.opaque(bits, "intr:" + cal, *[self.val(o) for o in real])
+            if opn in ("fadd", "fsub", "fmul", "fdiv", "frem", "sitofp", "uitofp", "fptosi", "fptoui", "fpext", "fptrunc"):
+                return self.inst(dict(ins, op=opn, ops=real), cond)
+            if opn in ("fcmp", "fcmps"):
+                pred = [m for m in mds if m and not m.startswith("fpexcept.")]
+                return self.inst(dict(ins, op="fcmp", ops=real, pred=pred[0]), cond)
+            if opn in ("sqrt", "fma", "fmuladd", "ceil", "floor", "trunc", "rint", "nearbyint", "round", "roundeven",
+                       "maxnum", "minnum", "maximum", "minimum"):
+                return self.call(dict(ins, ops=real, callee="llvm.%s.%s" % (opn, cal.split(".", 4)[4] if cal.count(".") >= 4 else "")), cond)
+            S.unknown.append(cal)
+            return T.opaque(bits, "intr:" + cal, *[self.val(o) for o in real])
         args = [self.val(o) for o in ops]
         if "asm" in ins and ins["asm"].strip() in ("divq $2", "div $2") and (ins.get("asmc") or "").startswith(
                 "={ax},={dx},r,{ax},{dx}") and len(args) == 3 and bits == 128:
@@ -621,6 +643,8 @@ class Interp:
             S.unknown.append("indirect")
             return T.opaque(bits or 64, "indirect") if bits else None
         if not name.startswith("llvm."):
+            if T.is_zero(cond):
+                return T.undef(bits) if bits else None      # block unreachable for these (substituted) arguments
             S.calls.append((name, args, ins.get("loc")))
             if name == "posix_memalign":
                 # int posix_memalign(void **memptr, size_t alignment, size_t size): *memptr = block
